@@ -73,3 +73,93 @@ Example C04_nonvacuous :
   end.
 Proof. vm_compute. reflexivity. Qed.
 Print Assumptions C04_nonvacuous.
+
+(* ------------------------------------------------------------------------------------------------------------ *)
+(* The run loop (Model/Runner.v, tied to _ControlLoopRunner by the runner differential): every schedule           *)
+(* ------------------------------------------------------------------------------------------------------------ *)
+From WF Require Import Proofs.RunnerEnds.
+
+(* the definitions used below, restated so that the statements can be read here *)
+Theorem C04_run_loop_definitions_are : forall stops,
+  (forall l, no_term stops l <-> Forall (fun p => terminal_of stops p = None) l) /\
+  (forall k o, term_match k o <->
+     match k, o with
+     | KCompleted e, OResult e' => e' = e
+     | KFailed x, OFailed x' => x' = x
+     | KTimedOut _, Runner.OTimedOut => True
+     | KCancelled, Runner.OCancelled => True
+     | _, _ => False
+     end) /\
+  (forall r, Ends_ok stops r <->
+     match Runner.outcome r with
+     | ORunning | Runner.OIdleReleased => no_term stops (published r)
+     | OResult _ | OFailed _ | Runner.OCancelled | Runner.OTimedOut =>
+         exists pre p k, published r = pre ++ [p] /\ no_term stops pre /\ terminal_of stops p = Some k /\
+                         term_match k (Runner.outcome r)
+     | OCrashed _ | OOutOfFuel => True
+     end) /\
+  (* what the environment may do: a worker finishes (having sent ticks, with a result list), an external tick is
+     delivered, time passes - user code does not hand-publish an event of a StopEvent type *)
+  (forall a, action_clean stops a <->
+     match a with
+     | AWorkerDone _ _ sends rs => Forall (fun t => tick_clean stops t = true) sends /\ forallb (result_clean stops) rs = true
+     | ADeliver t => tick_clean stops t = true
+     | AAdvance _ => True
+     end).
+Proof. intros stops. repeat split; intros; try (exact H); destruct a; exact H. Qed.
+Print Assumptions C04_run_loop_definitions_are.
+
+(* for every workflow state, start event, retry-policy oracle and schedule of environment actions: the stream of a
+   live run holds no terminal event; the stream of a run that ended with a result / failure / cancellation / timeout
+   is (no terminal event)* followed by exactly the terminal event of that kind, and nothing after it *)
+Theorem C04_run_loop_stream_ends_with_the_matching_terminal_event : forall P s e now acts,
+  Forall (action_clean (c_stop (cfg s))) acts -> Ends_ok (c_stop (cfg s)) (run_at P s e now acts).
+Proof. exact run_stream_ends_with_the_matching_terminal_event. Qed.
+Print Assumptions C04_run_loop_stream_ends_with_the_matching_terminal_event.
+
+(* spelled out per outcome *)
+Theorem C04_run_loop_result_is_the_last_stream_event : forall P s e now acts,
+  Forall (action_clean (c_stop (cfg s))) acts -> forall ev,
+  Runner.outcome (run_at P s e now acts) = OResult ev ->
+  exists pre, published (run_at P s e now acts) = pre ++ [PEvent ev] /\ no_term (c_stop (cfg s)) pre /\
+              zmem (ety ev) (c_stop (cfg s)) = true.
+Proof. exact run_result_is_last. Qed.
+Print Assumptions C04_run_loop_result_is_the_last_stream_event.
+
+Theorem C04_run_loop_failure_is_the_last_stream_event : forall P s e now acts,
+  Forall (action_clean (c_stop (cfg s))) acts -> forall x,
+  Runner.outcome (run_at P s e now acts) = OFailed x ->
+  exists pre st a el, published (run_at P s e now acts) = pre ++ [PFailed st x a el] /\ no_term (c_stop (cfg s)) pre.
+Proof. exact run_failure_is_last. Qed.
+Print Assumptions C04_run_loop_failure_is_the_last_stream_event.
+
+Theorem C04_run_loop_cancellation_is_the_last_stream_event : forall P s e now acts,
+  Forall (action_clean (c_stop (cfg s))) acts ->
+  Runner.outcome (run_at P s e now acts) = Runner.OCancelled ->
+  exists pre, published (run_at P s e now acts) = pre ++ [PCancelled] /\ no_term (c_stop (cfg s)) pre.
+Proof. exact run_cancel_is_last. Qed.
+Print Assumptions C04_run_loop_cancellation_is_the_last_stream_event.
+
+Theorem C04_run_loop_live_stream_has_no_terminal_event : forall P s e now acts,
+  Forall (action_clean (c_stop (cfg s))) acts ->
+  Runner.outcome (run_at P s e now acts) = ORunning -> no_term (c_stop (cfg s)) (published (run_at P s e now acts)).
+Proof. exact run_live_has_no_terminal. Qed.
+Print Assumptions C04_run_loop_live_stream_has_no_terminal_event.
+
+(* non-vacuity: two schedules of one workflow - one ends with a result, one with a step failure *)
+Example C04_run_loop_nonvacuous :
+  let c acc n := {| accepts := acc; nworkers := n; pol := None |} in
+  let wk acc n := {| w_cfg := c acc n; queue := []; inprogress := []; collected := []; waiters := [] |} in
+  let s0 := {| running := true;
+               cfg := {| c_handler_for := []; c_handlers := []; c_start := [0]; c_stop := [9];
+                         c_inputreq := [8]; c_ty_stepfailed := 7 |};
+               workers := [(1, wk [0] 1%nat); (2, wk [1] 2%nat)] |} in
+  let ev ty i := {| ety := ty; eid := i; eattrs := [] |} in
+  let x := {| xty := 1; xmsg := 1 |} in
+  let r1 := run_at (fun _ _ _ _ => PStop) s0 (ev 0 1) 100
+              [AWorkerDone 1 0%nat [] [RResult (OEvent (ev 1 6))]; AWorkerDone 2 0%nat [] [RResult (OEvent (ev 9 7))]] in
+  let r2 := run_at (fun _ _ _ _ => PStop) s0 (ev 0 1) 100 [AWorkerDone 1 0%nat [] [RFailed x 101]] in
+  Runner.outcome r1 = OResult (ev 9 7) /\ last (published r1) PIdle = PEvent (ev 9 7) /\
+  Runner.outcome r2 = OFailed x /\ (exists a el, last (published r2) PIdle = PFailed 1 x a el).
+Proof. vm_compute. repeat split; try reflexivity. eexists; eexists; reflexivity. Qed.
+Print Assumptions C04_run_loop_nonvacuous.
